@@ -1,6 +1,7 @@
-(** C13 — BuildEnvelope: for every message whose ten envelope header values
-    carry no bare CR, the ENVELOPE value is one well-formed token with
-    exactly ten fields (under "parseAddressList returns"). *)
+(** C13 — BuildEnvelope: for EVERY message the ENVELOPE value is one well-formed
+    token with exactly ten fields (under "parseAddressList returns"); since fix
+    wave 3 a value with CR/LF is a literal, so no header value is excluded.
+    BODYSTRUCTURE string fields likewise. *)
 From Coq Require Import String Ascii List Bool Arith NArith ZArith Lia.
 From Raven Require Import Base.GoStr Base.GoStrFacts Spec.Grammar Model.Respond
      Proof.Grammar Proof.RespondTok Proof.RespondAsm.
@@ -63,79 +64,55 @@ End Forallb.
 Lemma clean_trim_space s : clean s = true -> clean (trim_space s) = true.
 Proof. apply forallb_trim_f. Qed.
 
-Lemma bal_quote s : clean s = true -> bal (quote_or_nil s).
-Proof. intros H. apply tokp_bal, tokp_quote_or_nil, H. Qed.
+Lemma bal_quote s : bal (quote_or_nil s).
+Proof. apply tokp_bal, tokp_quote_or_nil_any. Qed.
 
-Lemma addr_struct_tok a s : clean a = true -> addr_struct a = Some s -> tokp s.
+Lemma addr_struct_tok a s : addr_struct a = Some s -> tokp s.
 Proof.
-  unfold addr_struct. intros Ha.
+  unfold addr_struct.
   set (ne := match index a ["<"%char] with Some _ => _ | None => _ end).
-  assert (Hne : forall n e, ne = Some (n, e) -> clean n = true /\ clean e = true).
-  { subst ne. intros n e. destruct (index a ["<"%char]) as [st_|].
-    - destruct (index (skipn st_ a) [">"%char]) as [en|].
-      + destruct (slice a (Z.of_nat st_ + 1) (Z.of_nat (en + st_))) as [email|] eqn:Es; [|discriminate].
-        intros E. injection E as <- <-. split.
-        * unfold trim. apply forallb_trim_f, clean_trim_space. now apply forallb_firstn.
-        * eapply forallb_slice; eassumption.
-      + intros E. injection E as <- <-. split; [reflexivity|exact Ha].
-    - intros E. injection E as <- <-. split; [reflexivity|exact Ha]. }
   destruct ne as [[n e]|]; [|discriminate].
-  destruct (Hne n e eq_refl) as [Hn He].
   set (mh := if contains e ["@"%char] then _ else _).
-  assert (Hmh : clean (fst mh) = true /\ clean (snd mh) = true).
-  { subst mh. destruct (contains e ["@"%char]); [|split; [exact He|reflexivity]].
-    unfold split_at_first. destruct (index_byte e "@"%char); cbn [fst snd].
-    - split; [now apply forallb_firstn|now apply forallb_skipn].
-    - split; [exact He|reflexivity]. }
-  destruct mh as [m h]. cbn [fst snd] in Hmh. destruct Hmh as [Hm Hh].
+  destruct mh as [m h].
   intros E. injection E as <-.
   set (inner := quote_or_nil n ++ S_ " NIL " ++ quote_or_nil m ++ [SP] ++ quote_or_nil h).
-  assert (Eq : forall X, X = LP :: inner ++ [RP] -> tokp X -> tokp X) by auto.
   match goal with |- tokp ?X => assert (EX : X = LP :: inner ++ [RP]) end.
   { subst inner. cbn [app S_ list_ascii_of_string]. repeat (rewrite <- app_assoc; cbn [app]). reflexivity. }
-  rewrite EX. clear Eq EX.
-  subst inner.
+  rewrite EX. clear EX. subst inner.
   apply tokp_paren.
-  apply bal_app; [now apply bal_quote|].
+  apply bal_app; [apply bal_quote|].
   apply bal_app; [reflexivity|].
-  apply bal_app; [now apply bal_quote|].
-  apply bal_app; [reflexivity|now apply bal_quote].
+  apply bal_app; [apply bal_quote|].
+  apply bal_app; [reflexivity|apply bal_quote].
 Qed.
 
-Lemma addr_structs_tok l : forall r, Forall (fun x => clean x = true) l ->
-  addr_structs l = Some r -> Forall tokp r.
+Lemma addr_structs_tok l : forall r, addr_structs l = Some r -> Forall tokp r.
 Proof.
-  induction l as [|a l IH]; intros r Hl; cbn [addr_structs].
+  induction l as [|a l IH]; intros r; cbn [addr_structs].
   - intros E. injection E as <-. constructor.
-  - inversion Hl as [|? ? Ha Hl']; subst.
-    destruct (trim_space a) as [|c t] eqn:Et; [now apply IH|].
+  - destruct (trim_space a) as [|c t] eqn:Et; [now apply IH|].
     destruct (addr_struct (c :: t)) as [s|] eqn:Es; [|discriminate].
     destruct (addr_structs l) as [r'|] eqn:Er; [|discriminate].
     cbn [option_map]. intros E. injection E as <-.
-    constructor; [|now apply IH].
-    eapply addr_struct_tok; [|exact Es]. rewrite <- Et. now apply clean_trim_space.
+    constructor; [|now apply IH]. eapply addr_struct_tok; exact Es.
 Qed.
 
-Lemma parse_address_list_tok a r : clean a = true -> parse_address_list a = Some r -> tokp r.
+Lemma parse_address_list_tok a r : parse_address_list a = Some r -> tokp r.
 Proof.
-  unfold parse_address_list. intros Ha. destruct a as [|c a]; [intros E; injection E as <-; apply tokp_NIL|].
+  unfold parse_address_list. destruct a as [|c a]; [intros E; injection E as <-; apply tokp_NIL|].
   destruct (addr_structs (split_byte (c :: a) ","%char)) as [l|] eqn:El; [|discriminate].
-  pose proof (addr_structs_tok _ _ (forallb_split _ _ ","%char Ha) El) as Hl.
+  pose proof (addr_structs_tok _ _ El) as Hl.
   destruct l as [|x l]; intros E; injection E as <-; [apply tokp_NIL|].
   apply (tokp_paren (join (x :: l) [SP])). apply (bal_join (x :: l)).
   eapply Forall_impl; [|exact Hl]. intros t. apply tokp_bal.
 Qed.
 
 Lemma envelope_fields_tok d s f sd rt t c b ir mi fs :
-  Forall (fun x => clean x = true) [d; s; f; sd; rt; t; c; b; ir; mi] ->
   envelope_fields d s f sd rt t c b ir mi = Some fs -> Forall tokp fs /\ length fs = 10.
 Proof.
-  intros H. repeat (match goal with H : Forall _ (_ :: _) |- _ => inversion H; clear H; subst end).
   unfold envelope_fields, opt_list. cbn [fold_right].
   set (sd' := match sd with [] => f | _ => sd end).
   set (rt' := match rt with [] => f | _ => rt end).
-  assert (Hsd : clean sd' = true) by (subst sd'; destruct sd; assumption).
-  assert (Hrt : clean rt' = true) by (subst rt'; destruct rt; assumption).
   destruct (parse_address_list f) as [xf|] eqn:Ef;
   destruct (parse_address_list sd') as [xs|] eqn:Es;
   destruct (parse_address_list rt') as [xr|] eqn:Er;
@@ -144,29 +121,19 @@ Proof.
   destruct (parse_address_list b) as [xb|] eqn:Eb; cbn; intros E; try discriminate.
   injection E as <-. split; [|reflexivity].
   repeat (apply Forall_cons); try apply Forall_nil;
-    try (apply tokp_quote_or_nil; assumption);
-    try (eapply parse_address_list_tok; [|eassumption]; assumption).
-Qed.
-
-Lemma classify_headers_clean raw : classify_headers raw = None ->
-  Forall (fun h => clean (extract_header raw h) = true) env_headers.
-Proof.
-  unfold classify_headers. destruct (forallb _ env_headers) eqn:E; [intros _|discriminate].
-  apply Forall_forall. rewrite forallb_forall in E. exact E.
+    try apply tokp_quote_or_nil_any;
+    try (eapply parse_address_list_tok; eassumption).
 Qed.
 
 Theorem envelope_wf raw v :
-  envelope_value raw = Some v -> classify_headers raw = None ->
+  envelope_value raw = Some v ->
   tokb v = true /\ exists fs, length fs = 10 /\ Forall (fun t => tokb t = true) fs
                               /\ tokens (S (length v)) (skipn 1 v) = Some (fs, [RP]).
 Proof.
-  unfold envelope_value. intros E Hc.
-  apply classify_headers_clean in Hc. unfold env_headers in Hc.
+  unfold envelope_value. intros E.
   match type of E with match ?X with _ => _ end = _ => destruct X as [fs|] eqn:Ef; [|discriminate] end.
   injection E as <-.
-  assert (Hc' : Forall (fun x => clean x = true) (map (extract_header raw) env_headers)).
-  { apply Forall_map. exact Hc. }
-  destruct (envelope_fields_tok _ _ _ _ _ _ _ _ _ _ fs Hc' Ef) as [Htok Hlen].
+  destruct (envelope_fields_tok _ _ _ _ _ _ _ _ _ _ fs Ef) as [Htok Hlen].
   split.
   - apply tokb_tokp. apply (tokp_paren (join fs [SP])). apply (bal_join fs).
     eapply Forall_impl; [|exact Htok]. intros t. apply tokp_bal.
@@ -179,19 +146,21 @@ Proof.
         pose proof (join_length_ge fs [SP] H). lia.
 Qed.
 
-(** the defect: QuoteOrNIL lets a bare CR through *)
+(** regression (bare_cr_header, repaired in fix wave 3): the line raven sent for
+    "Subject: a<CR>b" carried the CR inside a quoted string; the value is a
+    literal now *)
 Definition w_cr_msg : str :=
   S_ "Subject: a" ++ [CR] ++ S_ "b" ++ crlf ++ S_ "From: x@y" ++ crlf ++ crlf ++ S_ "hello" ++ crlf.
 
-Lemma refuted_bare_cr :
-  classify_headers w_cr_msg = Some bare_cr_header
+Lemma old_bare_cr_malformed :
+  wf_stream (send (S_ "* 1 FETCH (ENVELOPE (NIL ""a" ++ [CR] ++ S_ "b"" NIL NIL NIL NIL NIL NIL NIL NIL))")) = false
   /\ match envelope_value w_cr_msg with
-     | Some v => wf_stream (send (fetch_line 1 [Inline (S_ "ENVELOPE") v])) = false
+     | Some v => wf_stream (send (fetch_line 1 [Inline (S_ "ENVELOPE") v])) = true
      | None => False
      end.
 Proof. vm_compute. auto. Qed.
 
-(** ---- BODYSTRUCTURE string fields ---- *)
+(** ---- strings: one quoted string or one literal ---- *)
 
 Lemma qs_body_escape s : clean s = true -> qs_body (escape s ++ [DQ]) = true.
 Proof.
@@ -208,72 +177,64 @@ Proof.
       now apply IH.
 Qed.
 
-Lemma nstring_quote_or_nil s : clean s = true -> nstring_ok (quote_or_nil s) = true.
+Lemma literal_strict_lit_text p : literal_strict (lit_text p) = true.
 Proof.
-  intros H. destruct s as [|c s]; [reflexivity|].
-  unfold nstring_ok, quote_or_nil, quoted_strict. change (Ascii.eqb DQ DQ) with true. cbn [andb].
-  now rewrite qs_body_escape, orb_true_r.
+  unfold lit_text, literal_strict. cbn [app]. change (Ascii.eqb LB LB) with true. cbn [andb].
+  rewrite (span_digits_app (dec (length p)) [] RB (crlf ++ p) (dec_digits _) eq_refl). cbn [rev app].
+  pose proof (dec_nonempty (length p)) as Hne. destruct (dec (length p)) as [|d0 ds] eqn:Ed; [congruence|].
+  change (has_prefix (RB :: crlf ++ p) (RB :: crlf)) with (has_prefix ((RB :: crlf) ++ p) (RB :: crlf)).
+  rewrite has_prefix_app. cbn [andb skipn crlf app].
+  pose proof (dec_val (length p)) as Hv. rewrite Ed in Hv. unfold dval in Hv. rewrite Hv.
+  apply N.eqb_refl.
 Qed.
 
-Lemma quoted_strict_quote s : s <> [] -> clean s = true -> quoted_strict (quote_or_nil s) = true.
+Lemma string_quote_or_nil s : s <> [] -> string_ok (quote_or_nil s) = true.
 Proof.
-  intros Hne H. destruct s as [|c s]; [congruence|].
-  unfold quote_or_nil, quoted_strict. change (Ascii.eqb DQ DQ) with true. cbn [andb].
-  now apply qs_body_escape.
+  intros Hne. destruct s as [|c s]; [congruence|]. unfold string_ok, quote_or_nil.
+  destruct (clean (c :: s)) eqn:E.
+  - unfold quoted_strict. change (Ascii.eqb DQ DQ) with true. cbn [andb]. now rewrite qs_body_escape.
+  - now rewrite literal_strict_lit_text, orb_true_r.
 Qed.
 
-Lemma clean_to_upper s : clean s = true -> clean (to_upper s) = true.
+Lemma nstring_quote_or_nil s : nstring_ok (quote_or_nil s) = true.
 Proof.
-  assert (K : forall c, negb (negb (Ascii.eqb c CR) && negb (Ascii.eqb c LF))
-                        || (negb (Ascii.eqb (upper_c c) CR) && negb (Ascii.eqb (upper_c c) LF)) = true).
-  { ascii_sweep (fun c => negb (negb (Ascii.eqb c CR) && negb (Ascii.eqb c LF))
-                          || (negb (Ascii.eqb (upper_c c) CR) && negb (Ascii.eqb (upper_c c) LF))). }
-  unfold clean, to_upper. induction s as [|c s IH]; intros H; [reflexivity|].
-  cbn [map forallb] in *. apply andb_true_iff in H as [Hc Hs].
-  specialize (K c). rewrite Hc in K. cbn [negb orb] in K. now rewrite K, IH.
+  destruct s as [|c s]; [reflexivity|]. unfold nstring_ok.
+  now rewrite string_quote_or_nil, orb_true_r.
 Qed.
 
 (** the fields BuildBodyStructure prints after the parameter list of a
-    single-part message: NIL / one quoted string each, then numbers and NIL *)
+    single-part message: for EVERY raw message they are single tokens; id /
+    description are NIL or a string, the encoding is a string *)
 Theorem single_tail_ok raw is_text :
-  clean (extract_header raw (S_ "Content-ID")) = true ->
-  clean (extract_header raw (S_ "Content-Description")) = true ->
-  clean (extract_header raw (S_ "Content-Transfer-Encoding")) = true ->
   Forall (fun t => tokb t = true) (single_tail raw is_text)
   /\ Forall (fun t => nstring_ok t = true) (firstn 3 (single_tail raw is_text))
-  /\ quoted_strict (nth 2 (single_tail raw is_text) []) = true.
+  /\ string_ok (nth 2 (single_tail raw is_text) []) = true.
 Proof.
-  intros Hi Hd He.
-  assert (Henc : clean (bs_encoding raw) = true).
-  { unfold bs_encoding. apply clean_to_upper.
-    destruct (extract_header raw (S_ "Content-Transfer-Encoding")); [reflexivity|exact He]. }
   assert (Hne : bs_encoding raw <> []).
   { unfold bs_encoding, to_upper. destruct (extract_header raw (S_ "Content-Transfer-Encoding")); discriminate. }
   assert (Hnil : tokb NIL = true) by reflexivity.
   unfold single_tail. split; [|split].
   - destruct is_text; cbn [app];
-      repeat (apply Forall_cons; [first [ apply tokb_tokp, tokp_quote_or_nil; assumption
+      repeat (apply Forall_cons; [first [ apply tokb_tokp, tokp_quote_or_nil_any
                                         | apply tokb_tokp, tokp_dec | exact Hnil ]|]);
       apply Forall_nil.
-  - cbn [firstn app]. repeat constructor; now apply nstring_quote_or_nil.
-  - cbn [nth app]. now apply quoted_strict_quote.
+  - cbn [firstn app]. repeat constructor; apply nstring_quote_or_nil.
+  - cbn [nth app]. now apply string_quote_or_nil.
 Qed.
 
-(** the disposition field: NIL, or a list that starts with ONE quoted string —
-    for every type text without CR/LF, parsed or not (fix c1eb865) *)
+(** the disposition field: NIL, or a list that starts with ONE string *)
 Lemma disp_list_strict disp :
-  match disp with Some (t, _) => clean t = true | None => True end ->
   disp_list disp = NIL
   \/ exists t ps rest, disp = Some (t, ps) /\ disp_list disp = LP :: quote_or_nil (to_upper t) ++ rest
-                       /\ quoted_strict (quote_or_nil (to_upper t)) = true.
+                       /\ string_ok (quote_or_nil (to_upper t)) = true.
 Proof.
-  destruct disp as [[t ps]|]; [|now left]. intros Hc.
+  destruct disp as [[t ps]|]; [|now left].
   destruct t as [|c t]; [now left|]. right. exists (c :: t), ps. eexists. split; [reflexivity|].
-  split; [reflexivity|]. apply quoted_strict_quote; [discriminate|now apply clean_to_upper].
+  split; [reflexivity|]. apply string_quote_or_nil. discriminate.
 Qed.
 
 (** regression (fix c1eb865): what used to be printed for an unparsable
     disposition does not start with a string *)
 Lemma old_disposition_nil_malformed :
-  quoted_strict (S_ "NIL") = false /\ disp_list (Some ([], [])) = NIL.
+  string_ok (S_ "NIL") = false /\ disp_list (Some ([], [])) = NIL.
 Proof. vm_compute. auto. Qed.
